@@ -31,14 +31,16 @@ META = {
                   'every state reachable by replaceFunc/Guard.Apply/Unpatch/unpatchValue/UnpatchAll and worst-case collections, a '
                   'non-pristine entry is exactly the jump to the replacement held by the global patches map, which is therefore '
                   'live (never a wild jump); the mock keeps dispatching to the same closure until an operation on that function; '
-                  'Return/When install baseMocker.callback via reflect.MakeFunc. NOT proved, only observed on the corpus: that the '
+                  'Return/When install baseMocker.callback via reflect.MakeFunc (afresh after an Apply on the same mocker), exact-value rules are judged on the arguments of the call at hand, first match wins. NOT proved, only observed on the corpus: that the '
                   'Go ABI delivers every argument/result class unchanged through the jump and through reflect.makeFuncStub, and '
                   'that stack copying and the real collector preserve this.',
     'level_note': 'Trusted: Lean kernel (propext, Classical.choice, Quot.sound), tools/gen translator, mini ISA X86Mini (both '
                   'cross-checked by C15), the hand model of patch.go/guard.go/monkey.go/mocker.go (cross-checked by replaying '
                   'histories on the real code each run), the allocator-freshness assumption of the heap model. Outside the model '
                   'and covered only by measurement: Go register ABI, reflect.MakeFunc stub, runtime.morestack/stack copy, the real '
-                  'GC, instruction fetch of rewritten code, concurrency of callers (one history at a time).',
+                  'GC, instruction fetch of rewritten code, concurrency of callers (one history at a time). Recorded defects (KNOWN_FINDINGS C01-K1 generic '
+                  'dictionary shift — repair drafted as fixes/F27; C01-K2 reset of a superseded builder unpatches the superseding mock — refuted full '
+                  'statement in Findings/C01F.lean; C01-K3 method-value callback receives the receiver): the check prints KNOWN-FINDING for exactly those inputs.',
 }
 
 GEN = ['JmpAmd64']
@@ -89,17 +91,24 @@ def build_probes():
 # ------------------------------------------------------------------ history generation + the property's own expectation
 
 class Hist:
-    """One mocker-level history for one signature; `expect[i]` is what the property demands of step i."""
+    """One mocker-level history for one signature; `expect[i]` is what the PROPERTY demands of step i (not what the model
+    says): after the latest Apply/Return/When of a builder on the target, and until THAT builder is reset, every call
+    runs that replacement with exactly the arguments of the call; after the reset the original.  `tags[i]` names the
+    situation of a call step so that a recorded defect can be matched narrowly."""
 
-    def __init__(self, g, u, sig, rng, forms_wanted=None, phases=None):
+    def __init__(self, g, u, sig, rng, forms_wanted=None, phases=None, focus_rules=False):
         self.g, self.u, self.sig, self.rng = g, u, sig, rng
-        self.steps, self.expect = [], []
+        self.focus_rules = focus_rules
+        self.steps, self.expect, self.tags = [], [], []
         self.forms = list(g.FORMS_METHOD if sig.recv is not None else g.FORMS_FUNC)
         self.want = list(forms_wanted or [])
         self.k = 0
-        self.active = None            # None | ('cb', k, owner) | ('stub', res, owner)
+        self.active = None            # None | ('cb', k, owner) | ('stub', default res, owner, [(cond, res)...])
         self.mocked = set()           # builder slots that applied since their last reset and are still held by the test
-        self.had_r, self.a_after_r = {}, {}
+        self.has_when = {}            # slot -> the slot's mocker currently owns a When (a 2nd Return would be C05's sequence)
+        self.handle = {}              # slot -> the test holds a handle from an earlier fetch
+        self.foreign_reset = False    # a superseded builder was reset while the superseding mock is still applied
+        self.last_args = None
         self.ncalls = 0
         for _ in range(phases or (1 + rng.below(3))):
             self.phase()
@@ -110,19 +119,44 @@ class Hist:
             out += self.g.gen_value(t, self.rng)
         return ','.join(out) or '-'
 
-    def call(self):
+    def expected_now(self, a, r):
+        if self.active is None:
+            return ('orig',)
+        if self.active[0] == 'cb':
+            return ('cb', self.active[1], a, r)
+        for cond, res in self.active[3]:
+            if cond == a:
+                return ('stub', res)
+        return ('stub', self.active[1])
+
+    def call(self, args=None, reuse=False):
         rng = self.rng
         form = self.want.pop() if self.want else rng.choice(self.forms)
         if form in ('grow', 'cbgrow'):
             form += f':{1 + rng.below(300)}'
-        a, r = self.toks(self.sig.all_in(self.u)), self.toks(self.sig.results)
-        self.steps.append(f'C {form} {a} {r}')
-        if self.active is None:
-            self.expect.append(('orig',))
-        elif self.active[0] == 'cb':
-            self.expect.append(('cb', self.active[1], a, r))
+        self.recv_toks = None
+        if args is None:
+            if self.sig.recv is not None:
+                rt = self.g.gen_value(self.sig.all_in(self.u)[0], rng)
+                self.recv_toks = rt
+                a = ','.join(rt + sum((self.g.gen_value(t, rng) for t in self.sig.params), [])) or '-'
+            else:
+                a = self.toks(self.sig.params)
         else:
-            self.expect.append(('stub', self.active[1]))
+            a = args
+            if self.sig.recv is not None:
+                rt = self.g.gen_value(self.sig.all_in(self.u)[0], rng)
+                self.recv_toks = rt
+                a = ','.join(rt + ([] if args == '-' else args.split(',')))
+        r = self.toks(self.sig.results)
+        self.steps.append(f'{"Cr" if reuse else "C"} {form} {a} {r}')
+        self.expect.append(self.expected_now(a, r))
+        tag = []
+        if self.foreign_reset and self.active is not None:
+            tag.append('foreign-reset')
+        if reuse:
+            tag.append('reuse')
+        self.tags.append(tag)
         self.ncalls += 1
 
     def calls(self, lo=1, hi=3):
@@ -132,36 +166,95 @@ class Hist:
     def simple(self, s):
         self.steps.append(s)
         self.expect.append(('ok',))
+        self.tags.append([])
 
     def mock(self, b):
         rng = self.rng
-        can_r = self.sig.returnable() and not self.had_r.get(b, False)   # a 2nd Return on a mocker is result-sequence semantics (C05), not generated here
-        if can_r and rng.below(3) == 0:
+        kept = 'h' if self.handle.get(b) and rng.below(3) == 0 else ''
+        # a Return on a mocker that still owns a When is result-sequence semantics (C05): not generated here
+        can_r = self.sig.returnable() and not self.has_when.get(b, False)
+        if can_r and rng.below(5) < 2:
             res = self.toks(self.sig.results)
-            self.simple(f'R {b} {res}')
-            self.had_r[b] = True
-            self.active = ('stub', res, b)
+            self.simple(f'R{kept} {b} {res}')
+            self.has_when[b] = True
+            self.active = ('stub', res, b, [])
         else:
-            self.simple(f'A {b} {self.k}')
-            if self.had_r.get(b):
-                self.a_after_r[b] = True
+            self.simple(f'A{kept} {b} {self.k}')
+            self.has_when[b] = False          # Apply discards the When
             self.active = ('cb', self.k, b)
             self.k += 1
+        self.handle[b] = True
         self.mocked.add(b)
+        self.foreign_reset = False
+
+    def ptoks(self):
+        return [self.g.gen_value(t, self.rng) for t in self.sig.params]
+
+    def vary(self, base, prefer_ptr=True):
+        """a copy of the per-parameter token groups with some parameters regenerated — one parameter at a time is varied
+        while the others keep their values (pointer parameters preferably: same slot, different pointee)"""
+        rng = self.rng
+        idx = [j for j, t in enumerate(self.sig.params) if t.kind == 'ptr'] if prefer_ptr else []
+        if not idx or rng.below(4) == 0:
+            idx = [rng.below(len(self.sig.params))]
+        out = list(base)
+        for j in idx:
+            for _ in range(8):
+                out[j] = self.g.gen_value(self.sig.params[j], rng)
+                if out[j] != base[j] and out[j] != ['nil']:
+                    break
+        return out
+
+    def rules(self, b):
+        """conditional rules on the active stub, then calls that match / do not match / re-use the argument objects"""
+        rng = self.rng
+        join = lambda groups: ','.join(sum(groups, [])) or '-'
+        base = self.ptoks()
+        cands = [base] + [self.vary(base) for _ in range(1 + rng.below(2))]
+        conds = list(self.active[3])         # rules the mocker's When already owns stay in front (first match wins)
+        for c in cands:
+            cond, res = join(c), self.toks(self.sig.results)
+            if cond in [x for x, _ in conds]:
+                continue
+            kept = 'h' if rng.below(3) == 0 else ''
+            self.simple(f'W{kept} {b} {cond} {res}')
+            conds.append((cond, res))
+            self.active = ('stub', self.active[1], b, list(conds))
+        seq = [conds[0][0], join(self.vary(base)), conds[-1][0], conds[0][0], join(self.vary(base)), self.toks(self.sig.params)]
+        for i, c in enumerate(seq):
+            self.call(args=c, reuse=(i > 0 and rng.below(4) != 0))
+
+    def drop(self, b):
+        self.simple(f'D {b}')
+        self.mocked.discard(b)
+        self.has_when.pop(b, None)
+        self.handle.pop(b, None)
 
     def phase(self):
         rng = self.rng
         b = rng.below(2)
-        self.mock(b)
+        if self.focus_rules and not self.has_when.get(b):
+            res = self.toks(self.sig.results)
+            self.simple(f'R {b} {res}')
+            self.has_when[b], self.handle[b] = True, True
+            self.active = ('stub', res, b, [])
+            self.mocked.add(b)
+            self.foreign_reset = False
+            self.rules(b)
+        else:
+            self.mock(b)
         self.calls()
+        for _ in range(0 if self.focus_rules else 2):                      # re-mock through the same builder/mocker without a reset in between
+            if rng.below(3) == 0:
+                self.mock(b)
+                self.calls(1, 2)
+        if self.active[0] == 'stub' and self.sig.whenable() and rng.below(3) != 0:
+            self.rules(b)
         if rng.below(2):
             self.simple('G')
             self.calls(1, 2)
         if rng.below(3) == 0:
-            self.simple(f'D {b}')
-            self.mocked.discard(b)
-            self.had_r.pop(b, None)
-            self.a_after_r.pop(b, None)
+            self.drop(b)
             self.simple('G')
             self.calls(1, 2)
         if rng.below(3) == 0:
@@ -174,14 +267,39 @@ class Hist:
         order = sorted(self.mocked)
         if rng.below(2):
             order.reverse()
-        for bb in order:
+        for n, bb in enumerate(order):
             self.simple(f'X {bb}')
-            self.had_r.pop(bb, None)
-            self.a_after_r.pop(bb, None)
-        if self.active is not None and self.active[2] in self.mocked:
-            self.active = None
+            self.has_when[bb] = False
+            if self.active is not None and self.active[2] == bb:
+                self.active = None
+                self.foreign_reset = False
+            elif self.active is not None:
+                self.foreign_reset = True          # bb was superseded; the superseding builder has not been reset
+            if n + 1 < len(order) and rng.below(2):
+                self.call()
         self.mocked.clear()
         self.calls(1, 2)
+        b3 = rng.below(2)
+        if self.handle.get(b3) and self.active is None and rng.below(3) == 0:
+            # a handle kept across Reset is used again, then reset again
+            self.steps_kept(b3)
+
+    def steps_kept(self, b):
+        rng = self.rng
+        if self.sig.returnable() and rng.below(2):
+            res = self.toks(self.sig.results)
+            self.simple(f'Rh {b} {res}')
+            self.has_when[b] = True
+            self.active = ('stub', res, b, [])
+        else:
+            self.simple(f'Ah {b} {self.k}')
+            self.active = ('cb', self.k, b)
+            self.k += 1
+        self.calls(1, 2)
+        self.simple(f'X {b}')
+        self.has_when[b] = False
+        self.active = None
+        self.calls(1, 1)
 
     def line(self):
         return f'c01.hist s{self.sig.idx} ; ' + ' ; '.join(self.steps)
@@ -211,8 +329,9 @@ def split_obs(obs):
 
 
 def gen_patch_lines(rng, n):
-    """patch-layer histories over 3 functions: a well-used lane (with calls and collections) and a stale-guard lane
-    (Apply/Restore of superseded guards; text/registration observed, never called afterwards)."""
+    """patch-layer histories over 4 functions: a well-used lane (with calls and collections) and a stale-guard lane
+    (Apply of superseded guards; text/registration observed, never called afterwards).  `Guard.Restore` has no caller in
+    goom and is not exercised on the implementation (it stays in the Lean model only)."""
     lines, lanes = [], []
     for i in range(n):
         stale = (i % 4 == 3)
@@ -233,7 +352,7 @@ def gen_patch_lines(rng, n):
                     g = rng.choice(cands)
                     if reg.get(guards[g]) != g:
                         dirty = True
-                    steps.append(f'{rng.choice(["app", "app", "res"])} {g}')
+                    steps.append(f'app {g}')
             elif m == 5:
                 steps.append(f'unp {rng.below(len(guards))}')
             elif m == 6:
@@ -254,50 +373,121 @@ def gen_patch_lines(rng, n):
 
 # ------------------------------------------------------------------ running
 
-def run_ext(binary, ops_path, out_path, nops, timeout=150):
-    """Run the external probe; a crash kills the process, so restart after the crashed line. Returns (obs list, crashed idx list)."""
+SKIP = 'c01.skip'
+GOOM_ENV_KNOBS = ('GOOM_DEBUG', 'GOOM_TRACE', 'GOOM_LOG', 'GODEBUG', 'GOGC', 'GOMAXPROCS', 'GOTRACEBACK', 'GOMEMLIMIT')
+
+
+def probe_env(extra):
+    """environment of the probes: goom's and the runtime's behaviour-changing knobs are removed"""
+    e = C.goenv(extra)
+    for k in list(e):
+        if k in GOOM_ENV_KNOBS or k.startswith('GOOM_'):
+            del e[k]
+    return e
+
+
+def _run_once(binary, test, ops_path, out_path, skip, timeout):
+    env = probe_env({'VERIF_OPS': ops_path, 'VERIF_OUT': out_path, 'VERIF_SEED': str(C.seed()), 'VERIF_SKIP': str(skip)})
+    cmd = [binary, '-test.run', f'^{test}$', '-test.count=1', '-test.timeout', f'{timeout}s']
+    try:
+        p = subprocess.run(cmd, env=env, cwd=C.BUILD, capture_output=True, text=True, timeout=timeout + 30)
+        return p.returncode, p.stdout + p.stderr, False
+    except subprocess.TimeoutExpired:
+        return -9, 'timeout (the probe did not finish)', True
+
+
+def run_ext(binary, lines, tag, timeout, test='TestVerifC01'):
+    """Run the external probe over `lines` (non-probe lines are ignored by it).  A crash kills the process: the line after
+    the last observation is marked and the run continues behind it.  Nothing is reported from one occurrence: a line that
+    crashed or timed out is replayed ONCE alone in a fresh process; only if it fails again it stays `crash`.
+    Returns (observations, [(idx, log)] of confirmed crashes, error text)."""
+    n = len(lines)
+    ops_path = os.path.join(C.BUILD, f'{tag}.ops')
+    out_path = os.path.join(C.BUILD, f'{tag}.impl')
+    open(ops_path, 'w').write('\n'.join(lines) + '\n')
     if os.path.exists(out_path):
         os.remove(out_path)
-    skip, crashed, hangs = -1, [], 0
-    import time
-    for _ in range(6):
-        t0 = time.time()
-        env = C.goenv({'VERIF_OPS': ops_path, 'VERIF_OUT': out_path, 'VERIF_SEED': str(C.seed()), 'VERIF_SKIP': str(skip)})
-        cmd = [binary, '-test.run', '^TestVerifC01$', '-test.count=1', '-test.timeout', f'{timeout}s']
-        try:
-            p = subprocess.run(cmd, env=env, cwd=C.BUILD, capture_output=True, text=True, timeout=timeout + 20)
-            rc, log = p.returncode, p.stdout + p.stderr
-        except subprocess.TimeoutExpired:
-            rc, log = -9, 'timeout (the probe hung)'
-        obs = C.read_indexed(out_path, nops)
+    skip, suspects, err = -1, [], ''
+    for _ in range(8):
+        rc, log, timed_out = _run_once(binary, test, ops_path, out_path, skip, timeout)
+        obs = C.read_indexed(out_path, n)
         if rc == 0:
-            return obs, crashed, ''
+            break
         done = [i for i, o in enumerate(obs) if o is not None]
         nxt = (max(done) + 1) if done else max(skip + 1, 0)
-        if nxt <= skip or nxt >= nops:
-            return obs, crashed, log[-3000:]
-        crashed.append((nxt, log[-1500:]))
-        if time.time() - t0 > 0.8 * timeout:
-            hangs += 1
+        while nxt < n and not lines[nxt].startswith(('c01.hist', 'c01.fm')):
+            nxt += 1
+        if nxt <= skip or nxt >= n:
+            err = log[-3000:]
+            break
+        suspects.append((nxt, log[-1500:]))
         with open(out_path, 'a') as f:
             f.write(f'{nxt}\tcrash\n')
         skip = nxt
-        if hangs >= 2:
+        if len(suspects) >= 4:
             break
-    return C.read_indexed(out_path, nops), crashed, 'too many crashes'
+    obs = C.read_indexed(out_path, n)
+    confirmed = []
+    for idx, log in suspects[:4]:
+        solo = [SKIP] * n
+        solo[idx] = lines[idx]
+        sp = os.path.join(C.BUILD, f'{tag}.solo.ops')
+        so = os.path.join(C.BUILD, f'{tag}.solo.impl')
+        open(sp, 'w').write('\n'.join(solo) + '\n')
+        if os.path.exists(so):
+            os.remove(so)
+        rc, log2, _ = _run_once(binary, test, sp, so, -1, timeout)
+        o = C.read_indexed(so, n)[idx]
+        if rc == 0 and o is not None:
+            obs[idx] = o                      # did not reproduce: a loaded machine, not a property violation
+        else:
+            obs[idx] = 'crash'
+            confirmed.append((idx, (log2 or log)[-1500:]))
+    return obs, confirmed, err
 
 
-def execute(lines, bins, tag='c01', timeout=150):
-    ops_path = os.path.join(C.BUILD, f'{tag}.ops')
-    open(ops_path, 'w').write('\n'.join(lines) + '\n')
+def has_generic_shift(meta, obs):
+    for i, (kind, sig, h) in enumerate(meta):
+        if kind == 'hist' and h is not None and sig.lane == 'generic' and obs[i]:
+            main, _ = split_obs(obs[i])
+            for m, e in zip(main, h.expect):
+                if e[0] == 'cb' and m.startswith(f'cb{e[1]} ') and m != expected_obs(e):
+                    return True
+    return False
+
+
+def execute(lines, meta, bins, tag='c01', timeout=600):
     n = len(lines)
-    impl, crashed, elog = run_ext(bins['c01-ext'], ops_path, os.path.join(C.BUILD, f'{tag}.ext.impl'), n, timeout=timeout)
+    ops_path = os.path.join(C.BUILD, f'{tag}.ops')
+    # lines whose arguments would be wild pointers if goom shifts them (generic-ptr lane) run in a second pass
+    deferred = {i for i, m in enumerate(meta) if m[0] == 'hist' and m[1].lane == 'generic-ptr'}
+    first = [SKIP if i in deferred else l for i, l in enumerate(lines)]
+    impl, crashed, elog = run_ext(bins['c01-ext'], first, tag + '.ext', timeout)
+    if deferred:
+        if has_generic_shift(meta, impl):
+            for i in deferred:
+                impl[i] = 'deferred:generic-dict-shift'
+        else:
+            second = [l if i in deferred else SKIP for i, l in enumerate(lines)]
+            impl2, crashed2, elog2 = run_ext(bins['c01-ext'], second, tag + '.ext2', timeout)
+            for i in deferred:
+                impl[i] = impl2[i]
+            crashed += crashed2
+            elog = elog or elog2
+    fm, crashed3, elog3 = run_ext(bins['c01-ext'], lines, tag + '.fm', timeout, test='TestVerifC01FM')
+    crashed += crashed3
+    for i, v in enumerate(fm):
+        if v is not None and lines[i].startswith('c01.fm'):
+            impl[i] = v
+    open(ops_path, 'w').write('\n'.join(lines) + '\n')
     for ptag, test in (('c01-patch', 'TestVerifC01'), ('c01-bytecode', 'TestVerifC01GetPtr')):
         outp = os.path.join(C.BUILD, f'{tag}.{ptag}.impl')
-        try:
-            rc, log = C.run_probe(bins[ptag], test, ops_path, outp, timeout=timeout)
-        except subprocess.TimeoutExpired:
-            rc, log = -9, 'timeout (the probe hung)'
+        for attempt in range(2):              # a failure is retried once before anything is concluded from it
+            if os.path.exists(outp):
+                os.remove(outp)
+            rc, log, _ = _run_once(bins[ptag], test, ops_path, outp, -1, timeout)
+            if rc == 0:
+                break
         if rc != 0:
             crashed.append((ptag, log[-1500:]))
         for i, v in enumerate(C.read_indexed(outp, n)):
@@ -328,6 +518,11 @@ def make_ops(g, u, sigs, rng, tier, only_sig=None):
             want = h.want
             lines.append(h.line())
             meta.append(('hist', s, h))
+        if s.whenable():
+            for j in range(max(1, sz['lines_per_sig'] // 2)):
+                h = Hist(g, u, s, r, phases=1, focus_rules=True)
+                lines.append(h.line())
+                meta.append(('hist', s, h))
     pl, lanes = gen_patch_lines(rng.fork('patch'), sz['patch_lines'])
     for l, lane in zip(pl, lanes):
         lines.append(l)
@@ -336,24 +531,50 @@ def make_ops(g, u, sigs, rng, tier, only_sig=None):
         for n in range(3):
             lines.append(f'c01.getptr {kind} {n}')
             meta.append(('getptr', kind, None))
+    rf = rng.fork('fm')
+    for form in ('direct', 'mv', 'other', 'go'):
+        for _ in range(3):
+            lines.append(f'c01.fm {form} {rf.below(1 << 40)} {rf.below(1000)} {rf.below(1 << 30)}')
+            meta.append(('fm', form, None))
     return lines, meta
+
+
+KNOWN_KEYS = {
+    'generic-dict-shift': 'callback on a generic function/method receives the hidden dictionary as an argument: the caller\'s arguments arrive shifted by one word',
+    'foreign-reset': 'Reset of a builder whose mock of f had been superseded by another builder restores the original bytes: the other builder\'s still-applied mock stops running',
+    'method-value-receiver-shift': 'Func(obj.M).Apply(cb of the method value\'s type): the callback receives the receiver as its first argument',
+}
 
 
 def judge(lines, meta, impl, model, out, replay_extra, crashed=()):
     """Property oracle on the implementation, then correspondence. Returns statistics."""
     st = {'calls': 0, 'by_form': {}, 'by_expect': {}, 'distinct': set(), 'crash': 0, 'fin_seen': 0, 'gc_steps': 0,
-          'collected_superseded': 0, 'patch_wellused': 0, 'patch_stale': 0, 'patch_rejected': 0}
+          'collected_superseded': 0, 'patch_wellused': 0, 'patch_stale': 0, 'patch_rejected': 0, 'known': {}, 'steps': {},
+          'reuse_calls': 0, 'rule_calls': 0, 'deferred': 0, 'fm': 0}
     nviol = 0
+    known_lines = set()
+
+    def known(key, what, body, i):
+        """a mismatch of a recorded class: reported through Outcome (KNOWN-FINDING if listed, VIOLATION otherwise)"""
+        known_lines.add(i)
+        if key not in st['known']:
+            out.violation(f'{KNOWN_KEYS[key]}: {what}', body, key=key)
+        st['known'][key] = st['known'].get(key, 0) + 1
+
     for i, (kind, a, h) in enumerate(meta):
         obs = impl[i]
         if kind == 'hist':
             sig = a
             body = {'kind': 'impl-oracle', 'ops': [lines[i]], 'sig': sig.idx, 'signature': sig.describe(h.u), 'observed': obs, **replay_extra}
+            if obs == 'deferred:generic-dict-shift':
+                st['deferred'] += 1
+                known_lines.add(i)
+                continue
             if obs is None or obs == 'crash':
                 st['crash'] += 1
                 if nviol < 3:
                     clog = dict((k, v) for k, v in crashed if isinstance(k, int)).get(i, '')
-                    what = 'process crashed or hung while replaying' if obs == 'crash' else 'no observation (the probe died earlier and was not restarted) for'
+                    what = 'process crashed or hung (reproduced when replayed alone) on' if obs == 'crash' else 'no observation (the probe died earlier and was not restarted) for'
                     out.violation(f'{what} a history of sig {sig.idx} {sig.describe(h.u)}', {**body, 'expected': [expected_obs(e) for e in h.expect], 'crash_log_tail': clog[-1200:]})
                 nviol += 1
                 continue
@@ -365,12 +586,21 @@ def judge(lines, meta, impl, model, out, replay_extra, crashed=()):
             for j, (m, e) in enumerate(zip(main, exp)):
                 if bad:
                     break
-                if m != e:
-                    bad = f'step {j} `{h.steps[j][:60]}`: expected `{e[:200]}`, observed `{m[:200]}`'
                 ex = h.expect[j]
-                if h.steps[j].startswith('C '):
+                op = h.steps[j].split()[0]
+                st['steps'][op] = st['steps'].get(op, 0) + 1
+                if m != e:
+                    why = f'step {j} `{h.steps[j][:60]}`: expected `{e[:200]}`, observed `{m[:200]}`'
+                    if sig.gen is not None and ex[0] == 'cb' and m.startswith(f'cb{ex[1]} '):
+                        known('generic-dict-shift', why, {**body, 'expected': exp, 'why': why}, i)
+                    elif 'foreign-reset' in h.tags[j] and m == 'orig':
+                        known('foreign-reset', why, {**body, 'expected': exp, 'why': why}, i)
+                    else:
+                        bad = why
+                if op in ('C', 'Cr'):
                     form = h.steps[j].split()[1].split(':')[0]
                     st['calls'] += 1
+                    st['reuse_calls'] += op == 'Cr'
                     st['by_form'][form] = st['by_form'].get(form, 0) + 1
                     st['by_expect'][ex[0]] = st['by_expect'].get(ex[0], 0) + 1
                     if ex[0] != 'orig':
@@ -380,7 +610,7 @@ def judge(lines, meta, impl, model, out, replay_extra, crashed=()):
                         st['fin_seen'] += 1
                     if ex[0] == 'cb' and str(ex[1]) in fin and not bad:
                         bad = f'step {j}: callback {ex[1]} is the active replacement but its closure was finalized (collected)'
-                elif h.steps[j] == 'G':
+                elif op == 'G':
                     st['gc_steps'] += 1
             if side and side[-1]:
                 st['collected_superseded'] += len([x for x in side[-1].replace('fin=', '').split(',') if x])
@@ -388,6 +618,19 @@ def judge(lines, meta, impl, model, out, replay_extra, crashed=()):
                 if nviol < 3:
                     out.violation(f'sig {sig.idx} {sig.describe(h.u)}: {bad}', {**body, 'expected': exp, 'why': bad})
                 nviol += 1
+        elif kind == 'fm':
+            st['fm'] += 1
+            _, form, fa, fb, fr = lines[i].split()
+            want = f'cb a={fa},{fb} r={fr} | orig'
+            body = {'kind': 'impl-oracle', 'ops': [lines[i]], 'observed': obs, 'expected': want, **replay_extra}
+            if obs != want:
+                parts = (obs or '').split(' | ')
+                if len(parts) == 2 and parts[1] == 'orig' and parts[0].startswith('cb a=') and parts[0].endswith(f',{fa} r={fr}'):
+                    known('method-value-receiver-shift', f'`{lines[i]}`: expected `{want}`, observed `{obs}`', body, i)
+                else:
+                    if nviol < 3:
+                        out.violation(f'method value mock `{lines[i]}`: expected `{want}`, observed `{obs}`', body)
+                    nviol += 1
         elif kind == 'patch':
             st['patch_' + a] += 1
             st['patch_rejected'] += (obs or '').count('rej:patched')
@@ -413,15 +656,29 @@ def judge(lines, meta, impl, model, out, replay_extra, crashed=()):
                     out.violation(f'bytecode.GetPtr does not yield the func value address for {a}: {obs}', {'kind': 'impl-oracle', 'ops': [lines[i]], 'observed': obs, **replay_extra})
                 nviol += 1
     st['oracle_failures'] = nviol
-    # correspondence (compared part only)
+    # correspondence (compared part only); lines of a recorded defect class are outside the model by definition
     diffs = []
     if model is not None:
         for i, l in enumerate(lines):
+            if i in known_lines:
+                continue
             a = ' | '.join(split_obs(impl[i])[0]) if impl[i] else impl[i]
             if a != model[i]:
                 diffs.append((i, l, a, model[i]))
     st['diffs'] = diffs
     return st
+
+
+def floors(meta, st, tier):
+    """a lane that silently ran nothing is a machinery error, not a pass"""
+    nh = sum(1 for m in meta if m[0] == 'hist')
+    need = {'calls': 4 * nh // 2, 'gc_steps': nh // 4, 'patch_wellused': 1, 'patch_stale': 1, 'patch_rejected': 1, 'fm': 1}
+    low = [f'{k}={st[k]}<{v}' for k, v in need.items() if st[k] < v]
+    for op in ('A', 'R', 'X', 'D', 'Ah', 'Rh', 'W', 'Cr'):
+        if st['steps'].get(op, 0) == 0 and nh >= 100:
+            low.append(f'no `{op}` step was replayed')
+    if low:
+        raise C.Infra('a generator lane ran (almost) nothing: ' + ', '.join(low))
 
 
 def run(tier):
@@ -434,12 +691,13 @@ def run(tier):
     g, u, sigs = corpus(C.seed(), sz['nrandom'])
     bins = build_probes()
     lines, meta = make_ops(g, u, sigs, rng, tier)
-    impl, model, crashed, elog = execute(lines, bins, timeout=(1500 if tier == 'thorough' else 150))
+    impl, model, crashed, elog = execute(lines, meta, bins, timeout=(3600 if tier == 'thorough' else 600))
     extra = {'corpus_seed': C.seed(), 'nrandom': sz['nrandom'], 'how': 'python3 check.py C01 --replay <this file>'}
     st = judge(lines, meta, impl, model, out, extra, crashed)
     if model is None:
         proof['failed'].append(('goomdrv', 'driver does not build: ' + elog[-500:]))
     if not st['oracle_failures']:
+        floors(meta, st, tier)
         if st['diffs']:
             i, op, a, b = st['diffs'][0]
             out.violation('model and implementation disagree on a replayed history', {'kind': 'correspondence', 'ops': [op], 'impl': a, 'model': b,
@@ -472,15 +730,21 @@ def run(tier):
         'theorems': proof['axioms'], 'proof_failures': proof['failed'],
         'evaluations': len(lines), 'distinct_nontrivial': len(st['distinct']),
         'traces_validated_against_impl': len(lines) - len(st['diffs']),
-        'rule': 'one evaluation = one replayed history line (mocker-level history of one signature with several calls, patch-layer history, or '
-                'GetPtr probe); non-trivial = a call that ran a replacement, distinct by (signature, call form, observation incl. the exact values)',
+        'rule': 'one evaluation = one replayed history line (mocker-level history of one signature with several calls, patch-layer history, '
+                'method-value line or GetPtr probe); non-trivial = a call that ran a replacement, distinct by (signature, call form, observation '
+                'incl. the exact values). For mocker-level lines the model contributes WHICH code runs (orig / callback k / stub and its rule); '
+                'the argument/result values in the expected line are the inputs echoed, so value exactness is evidence from the implementation only.',
         'distribution': {'signatures': len(sigs), 'signature_lanes': lanes, 'abi_classes': abi, 'mocker_histories': hist_lines,
+                         'steps_by_kind': st['steps'],
                          'calls': st['calls'], 'calls_by_form': st['by_form'], 'calls_by_expected_behaviour': st['by_expect'],
+                         'calls_reusing_argument_objects': st['reuse_calls'],
                          'gc_steps': st['gc_steps'], 'calls_with_some_closure_already_collected': st['fin_seen'],
                          'closures_observed_collected_by_end_of_line': st['collected_superseded'],
                          'patch_layer_histories': {'wellused': st['patch_wellused'], 'stale_guard': st['patch_stale'],
                                                    'replaceFunc_rejected_already_patched': st['patch_rejected']},
-                         'process_crashes': len(crashed), 'gen_modules_changed_this_run': changed},
+                         'method_value_lines': st['fm'], 'known_finding_hits': st['known'],
+                         'generic_pointer_lines_deferred_because_arguments_are_shifted': st['deferred'],
+                         'process_crashes_confirmed': len(crashed), 'gen_modules_changed_this_run': changed},
         'samples': [{'op': lines[i][:400], 'impl': (impl[i] or '')[:400], 'model': (model[i][:400] if model else None)}
                     for i in (0, len(lines) // 3, hist_lines + 1 if hist_lines + 1 < len(lines) else 0, len(lines) - 1)],
     }
@@ -495,7 +759,12 @@ def replay(body):
     g, u, sigs = corpus(body.get('corpus_seed', C.seed()), body.get('nrandom', sizes(tier)['nrandom']))
     bins = build_probes()
     ops = body.get('ops', [])
-    impl, model, crashed, _ = execute(ops, bins, tag='c01-replay')
+    meta = []
+    for l in ops:
+        t = l.split()
+        sig = next((x for x in sigs if l.startswith(f'c01.hist s{x.idx} ')), None)
+        meta.append(('hist', sig, None) if sig is not None else ('other', None, None))
+    impl, model, crashed, _ = execute(ops, meta, bins, tag='c01-replay')
     rc = 0
     for i, op in enumerate(ops):
         a = ' | '.join(split_obs(impl[i])[0]) if impl[i] else impl[i]
